@@ -6,6 +6,7 @@ import Psa.AdmitIO
 import Psa.StdEval
 import Psa.Webhook
 import Psa.ConfigIO
+import Psa.FixtureCheck
 import Psa.Generated.Tables
 /-! psa-driver: one JSON object per input line, one JSON object per output line. -/
 open Lean PSA PSA.IO
@@ -70,6 +71,15 @@ def handle (j : Json) : R Json := do
     let st := Webhook.classify Generated.maxRequestSize (boolD j "empty") (← natOf (← fld j "size")) (strD j "contentType")
       (boolD j "decodes") (boolD j "v1review") (boolD j "hasRequest")
     return Json.mkObj [("status", Json.num (st : JsonNumber))]
+  | "fixture" =>
+    let p ← pod (← fld j "pod")
+    let l ← level (← fld j "level")
+    let v ← ver (← fld j "version")
+    let f : Fixture := { level := l, minor := v.minor, check := strD j "check", pass := boolD j "pass", pod := p }
+    let rs := evalPodModel Generated.tables false ⟨l, v⟩ (apiDefault p)
+    let revs := shippedRegistry.evaluate l v
+    return Json.mkObj [("ok", Json.bool (fixtureOk f)), ("results", Json.arr ((revs.zip rs).map (fun (r, x) =>
+      (jresult x).setObjVal! "rev" (jstr (revName r)))).toArray)]
   | "loadConfig" => loadConfigOp j
   | "registry" =>
     let cs ← arrOf regCheck (fldD j "checks")
